@@ -81,7 +81,8 @@ std::optional<ChunkRecord> ChunkStore::get_record(const ChunkId& id) {
     }
 
     if (std::chrono::steady_clock::now() >= it->second.expires_at) {
-        chunks_.erase(it);
+        // Do not erase here: the sweep owns removal, so that the persisted file is
+        // wiped and the expiry is reported exactly once by the next cleanup.
         return std::nullopt;
     }
 
